@@ -573,7 +573,9 @@ pub fn bad_record(r: &Rng, allow_mt: bool) -> (Vec<u8>, String) {
                 let v = *r.pick(&[1u16, 9, 311, 0xFFFF, 1 + r.below(65534) as u16]);
                 let attr = r.below(45) as u16;
                 let n = r.below(12);
-                return (record(1, v, attr, &r.bytes(n)), format!("UnsupportedVendorId({})", v));
+                // any flag bits, the hidden bit included: a vendor-specific AVP is refused whatever its flags say
+                let fl = if r.chance(1, 2) { 1 } else { r.next() as u8 & 0x3f };
+                return (record(fl, v, attr, &r.bytes(n)), format!("UnsupportedVendorId({})", v));
             }
             _ => {
                 // bad text in the optional tails
